@@ -1,14 +1,19 @@
 """C13 - CCSDS OPM / OEM / OMM / TDM messages round-trip in KVN and XML.
 
 One case = one generated object.  For each encoding the check (on a freshly built copy of the
-object) dumps, verifies the caller's object is bit-identical afterwards, loads, compares with the
-original to the written precision, dumps the loaded object again in both encodings and loads
-those; finally the KVN and XML decodings are compared with each other.  Every discrepancy is
-collected (the clauses are independent), each under a root-cause kind; the first one that is not
-a listed known finding is raised, so the search goes on behind confirmed defects.
+object) dumps, verifies the caller's object is bit-identical afterwards, loads and compares with
+the original to the written precision (dump_load, input_untouched); then the KVN and XML decodings
+are compared with each other (kvn_equals_xml); then each decoded object is dumped again in both
+encodings and those are loaded and compared with the first decoding (redump).  Every discrepancy
+is collected (the clauses are independent), each under a root-cause kind; the first one that is
+not a listed known finding is raised, so the search goes on behind confirmed defects.
+
+Development aid: VERIF_C13_ASSUME=all (or a comma separated list of FINDINGS keys) activates the
+predicates below as if they were listed in KNOWN_FINDINGS.txt.
 """
 
 import os
+import re
 
 from hypothesis import strategies as st
 
@@ -21,7 +26,8 @@ RULE = ("Objects drawn field by field (state from oracle kep2cart, PSD covarianc
         "user fields, TLE integer fields, measures) and encoded in both KVN and XML.")
 ASSUMPTIONS = [
     "oracle: vf/oracles/ccsds_eq.py - plain attribute comparison to the precision each writer prints "
-    "(1 us; 1 mm / 1 mm/s, OEM-KVN 1e-7 m; covariance 1e-12 relative; OMM per field; TDM range 1 mm, angles 0.01 deg)",
+    "(1 us; 1 mm / 1 mm/s; covariance lower triangle 1e-12 relative; OMM per field; TDM range 1 mm, angles 0.01 deg, "
+    "doppler 1e-6); a quantised field may differ by half a unit of its last written digit, so worst/tol reaches 1",
     "an absent name / identifier and the text 'N/A' are the same thing (the writers print N/A)",
     "the frame names RSW / RTN and QSW denote the same local frame",
     "a MeasureSet with several paths decodes to one MeasureSet per path: compared path by path, order kept within a path",
@@ -35,8 +41,9 @@ LEVEL_TEXT = ("Generated-input search: each generated object is written, read ba
               "in both encodings, re-written from the decoded object in both encodings, and the caller's object "
               "is compared bit by bit before/after the dump.")
 LEVEL_NOTE = ("Exploration only. Schema validity of the XML (XSD) is not checked. Text fields are limited to a "
-              "KVN-safe alphabet; messages are those the library writes (foreign messages: only the optional fuzz "
-              "target, not built).")
+              "KVN-safe alphabet. Messages are those the library writes, plus (facet 'foreign') the repository's "
+              "sample messages with a few digits of their numeric fields replaced: a message the reader refuses is "
+              "outside the property, one it accepts must be writable again. No coverage-guided (atheris) campaign.")
 TECHNIQUE = "property-based testing (Hypothesis), round-trip / differential KVN vs XML / idempotence oracles"
 
 FMTS = ("kvn", "xml")
@@ -114,6 +121,13 @@ ROOT_CAUSES = [
 ]
 
 
+def _safe(trig, spec, *a):
+    try:
+        return bool(trig(spec, *a))
+    except (KeyError, TypeError, AttributeError):
+        return False  # a case without generator spec (repository sample message): no trigger is known for it
+
+
 def exc_violation(stage, chain, typ, fmt, exc, spec, loaded_source=False):
     """An exception out of beyond on a valid object -> Violation with a root-cause kind.
     stage: 'dump' | 'load'; chain: text describing where in the round trip."""
@@ -127,9 +141,9 @@ def exc_violation(stage, chain, typ, fmt, exc, spec, loaded_source=False):
             if name == "omm-kvn-needs-tle":
                 ok = "'tle'" in str(exc) and (loaded_source or spec.get("source") == "direct")
             elif name == "oem-xml-noncartesian":
-                ok = "is not available in" in str(exc) and trig(spec) and not loaded_source
+                ok = "is not available in" in str(exc) and _safe(trig, spec) and not loaded_source
             else:
-                ok = trig(spec)
+                ok = _safe(trig, spec)
             if ok:
                 kind = name
                 break
@@ -221,6 +235,7 @@ def collect(case):
     want = None
     decoded = {}
     reported = {}
+    # ---- phase 1: dump (input untouched), load, compare with the original - once per encoding
     for fmt in FMTS:
         obj = G.build(spec)
         snap0 = E.snapshot(obj, typ)
@@ -229,13 +244,12 @@ def collect(case):
             raise RuntimeError("harness: describing the object changed it")
         if want is None:
             want = w
-        # ---- dump
         try:
             text = _dumps(obj, fmt, case)
         except Exception as exc:
             add_exc(exc_violation("dump", f"dumps(x, {fmt})", typ, fmt, exc, spec))
             text = None
-        # ---- input untouched (also when the dump failed)
+        # the caller's object is bit-identical afterwards (also when the dump failed)
         d = E.snapshot_diff(snap0, E.snapshot(obj, typ))
         if d:
             add(f"input-mutated:{typ}-{fmt}", f"dumps(x, {fmt}) changed its argument: {d}", fmt=fmt)
@@ -244,7 +258,6 @@ def collect(case):
         if _fmt_of(text) != fmt:
             add("wrong-format", f"asked {fmt} via {case.get('via', 'arg')}, text is {_fmt_of(text)}", fmt=fmt)
             continue
-        # ---- load
         try:
             y = loads(text)
         except Exception as exc:
@@ -257,12 +270,21 @@ def collect(case):
             continue
         tol = _tol(typ, fmt)
         fields = E.diff(w, got, typ, tol)
-        worst[0] = max(worst[0], tol.worst if not fields else 0.0)
+        if not fields:
+            worst[0] = max(worst[0], tol.worst)
         reported[fmt] = {f for f, _, _ in fields}
         for f, k, m in fields:
             add(_kind(k, typ, fmt), f"loads(dumps(x, {fmt})) differs from x: {m}", fmt=fmt, clause="dump_load")
         decoded[fmt] = (y, got)
-        # ---- anything that was read can be written again
+    # ---- phase 2: the two encodings decode to the same object
+    if len(decoded) == 2:
+        tol = _Double(_tol(typ, "kvn", "xml"))
+        both = reported["kvn"] | reported["xml"]
+        fields = [e for e in E.diff(decoded["kvn"][1], decoded["xml"][1], typ, tol) if e[0] not in both]
+        for f, k, m in fields:
+            add(f"kvn-vs-xml:{k}", f"KVN decoding vs XML decoding: {m}", clause="kvn_equals_xml")
+    # ---- phase 3: anything that was read can be written again, in either encoding, and decodes the same
+    for fmt, (y, got) in decoded.items():
         for f2 in FMTS:
             ysnap = E.snapshot(y, typ)
             try:
@@ -294,19 +316,12 @@ def collect(case):
                                       loaded_source=True))
                 continue
             tol2 = _tol(typ, f2)
-            f2fields = E.diff(got, gz, typ, tol2)
+            f2fields = [e for e in E.diff(got, gz, typ, tol2) if e[0] not in reported[fmt]]
+            if not f2fields:
+                worst[0] = max(worst[0], tol2.worst)
             for f, k, m in f2fields:
-                if f not in reported[fmt]:
-                    add(_kind(k, typ, f2), f"{fmt} -> decoded -> {f2} -> decoded differs from the first decoding: {m}",
-                        fmt=f2, clause="redump")
-    # ---- the two encodings decode to the same object
-    if len(decoded) == 2:
-        tol = _tol(typ, "kvn", "xml")
-        tol.epoch = 2e-6
-        both = reported["kvn"] | reported["xml"]
-        for f, k, m in E.diff(decoded["kvn"][1], decoded["xml"][1], typ, _Double(tol)):
-            if f not in both:
-                add(f"kvn-vs-xml:{k}", f"KVN decoding vs XML decoding: {m}", clause="kvn_equals_xml")
+                add(_kind(k, typ, f2), f"{fmt} -> decoded -> {f2} -> decoded differs from the first decoding: {m}",
+                    fmt=f2, clause="redump")
     return viols, dict(worst=worst[0], want=want)
 
 
@@ -315,7 +330,7 @@ class _Double:
 
     def __init__(self, tol):
         self.t = tol
-        self.coord = tol.coord * 2
+        self.coord = tol.coord
         self.epoch = tol.epoch
 
     def see(self, err, tol):
@@ -409,6 +424,112 @@ def _setup_jpl(shard):
     jpl.create_frames()
 
 
+# ------------------------------------------------------------------ messages not written by beyond
+# "anything that was read can be written again" on the repository's sample messages (Blue Book examples,
+# other producers' unit conventions), unedited or with a few digits of their numeric fields replaced.
+# A message the reader refuses (any exception) is outside the property; one it accepts must be writable
+# in both encodings and decode to the same object again.
+
+
+def sample_names():
+    d = os.path.join(env.repo(), "tests", "io", "ccsds", "data")
+    return sorted(f for f in os.listdir(d) if f.endswith((".kvn", ".xml")))
+
+
+def _edit(text, edits):
+    lines = text.split("\n")
+    # numeric value fields only: skip the header / metadata / epochs (edits there are refused or irrelevant)
+    cand = [k for k, ln in enumerate(lines)
+            if any(c.isdigit() for c in ln)
+            and not any(w in ln for w in ("CCSDS_", "CREATION_DATE", "<?xml", "xmlns", "OBJECT_ID", "_TIME",
+                                          "EPOCH", "version="))]
+    for e in edits:
+        if not cand:
+            break
+        k = cand[e["line"] % len(cand)]
+        ln = lines[k]
+        # digits of the value, not of the key / tag / unit
+        body_lo = ln.find(">") + 1 if ln.lstrip().startswith("<") else ln.find("=") + 1
+        body_hi = ln.rfind("</") if ln.lstrip().startswith("<") and "</" in ln else (
+            ln.find("[") if "[" in ln else len(ln))
+        dates = [m.span() for m in re.finditer(r"\d{4}-[\d-]+T[\d:.]+", ln)]  # epochs stay as they are
+        pos = [j for j in range(max(body_lo, 0), body_hi)
+               if ln[j].isdigit() and not any(a <= j < b for a, b in dates)]
+        if not pos:
+            continue
+        j = pos[e["pos"] % len(pos)]
+        lines[k] = ln[:j] + str(e["digit"]) + ln[j + 1:]
+    return "\n".join(lines)
+
+
+@st.composite
+def foreign_case(draw, names):
+    name = draw(st.sampled_from(names))
+    n = draw(st.sampled_from([0, 1, 1, 2, 3]))
+    edits = [dict(line=draw(st.integers(0, 999)), pos=draw(st.integers(0, 99)), digit=draw(st.integers(0, 9)))
+             for _ in range(n)]
+    return dict(facet="foreign", obj=dict(type=name.split(".")[0].split("_")[0].split("-")[0], sample=name),
+                edits=edits)
+
+
+def _strip_names(d):
+    """A foreign KVN value such as 'GOES 9 [P]' is decoded with a trailing blank ('GOES 9 '), which KVN cannot
+    carry: names are compared without surrounding blanks here (text fields of the property's domain have none)."""
+    for item in [d] + list(d.get("ephems", ())):
+        for k in ("name", "cospar_id"):
+            if isinstance(item.get(k), str):
+                item[k] = item[k].strip()
+    return d
+
+
+def check_foreign(case):
+    from beyond.io.ccsds import loads
+
+    name = case["obj"]["sample"]
+    typ = case["obj"]["type"]
+    with open(os.path.join(env.repo(), "tests", "io", "ccsds", "data", name)) as fh:
+        text = _edit(fh.read(), case["edits"])
+    try:
+        y = loads(text)
+    except Exception as exc:
+        return dict(nt=False, cls=[f"refused:{type(exc).__name__}"])
+    gy = _strip_names(E.describe(y, typ))
+    viols = []
+    for f2 in FMTS:
+        ysnap = E.snapshot(y, typ)
+        try:
+            text2 = _dumps(y, f2, dict(obj=case["obj"]), first=False)
+        except Exception as exc:
+            viols.append(exc_violation("dump", f"dumps(loads({name}), {f2})", typ, f2, exc, case["obj"],
+                                       loaded_source=True))
+            continue
+        d = E.snapshot_diff(ysnap, E.snapshot(y, typ))
+        if d:
+            viols.append(Violation(f"input-mutated:{typ}-{f2}", f"dumps(loads({name}), {f2}) changed its argument: {d}",
+                                   fmt=f2))
+        try:
+            z = loads(text2)
+            gz = _strip_names(E.describe(z, typ))
+        except Exception as exc:
+            viols.append(exc_violation("load", f"loads(dumps(loads({name}), {f2}))", typ, f2, exc, case["obj"],
+                                       loaded_source=True))
+            continue
+        tol = _tol(typ, f2)
+        for f, k, m in E.diff(gy, gz, typ, tol):
+            if f2 == "kvn" and f in ("name", "cospar_id") and "[" in str(gy.get(f)):
+                k = "kvn-bracket-in-text"  # kvn2dict takes every '[' for the start of a unit
+            viols.append(Violation(_kind(k, typ, f2), f"{name} -> decoded -> {f2} -> decoded differs: {m}", fmt=f2,
+                                   clause="redump"))
+    if viols:
+        from .. import findings
+
+        for v in viols:
+            if not findings.match("C13", "foreign", case, v.kind, v.msg, v.data):
+                raise v
+        raise viols[0]
+    return dict(nt=True, cls=[typ, f"edits:{len(case['edits'])}"])
+
+
 # ------------------------------------------------------------------ known findings (development aid)
 # Predicates are consulted only for keys listed in KNOWN_FINDINGS.txt (or, while developing, named in
 # VERIF_C13_ASSUME, comma separated or 'all').  Each pins failure kind + the input class that triggers it.
@@ -416,7 +537,7 @@ def _setup_jpl(shard):
 
 def _p(kind_test, trigger):
     def pred(facet, case, kind, msg, data):
-        return kind_test(kind, data) and trigger(case["obj"], data)
+        return kind_test(kind, data) and _safe(trigger, case["obj"], data)
 
     return pred
 
@@ -458,7 +579,11 @@ FINDINGS = {
     "c13-tdm-segments-not-rewritable": _p(lambda k, d: k == "tdm-segments-not-rewritable",
                                           lambda s, d: len(_groups(s)) > 1),
     "c13-omm-xml-constant-class-type": _p(lambda k, d: k == "omm-xml-constant-class-type",
-                                          lambda s, d: s["tle"]["classification"] != "U" or s["tle"]["etype"] != 0),
+                                          lambda s, d: s["type"] == "omm" and (
+                                              "sample" in s or s["tle"]["classification"] != "U"
+                                              or s["tle"]["etype"] != 0)),
+    "c13-kvn-bracket-in-text": _p(lambda k, d: k == "kvn-bracket-in-text" and d.get("fmt") == "kvn",
+                                  lambda s, d: s["sample"].startswith("omm_bluebook")),
     "c13-xml-empty-text": _p(lambda k, d: k == "xml-empty-text", lambda s, d: _empty_text(s)),
     "c13-kvn-man-comment-split": _p(lambda k, d: k == "man-comment" and d.get("fmt") == "kvn", _comment_token),
 }
@@ -487,17 +612,20 @@ _assume_for_development()
 FACETS = [
     Facet("opm", lambda s, t: case_of(G.opm_spec(), "opm"), check, setup=_setup,
           rule="object has a covariance, a maneuver, a user field or a non-UTC scale",
-          quick=(6, 120), thorough=(16, 1200)),
+          quick=(8, 250), thorough=(16, 2000)),
     Facet("opm_jpl", lambda s, t: case_of(G.opm_spec(jpl=True), "opm_jpl"), check, setup=_setup_jpl,
           rule="as opm; state in a body-centred frame created from the DE403 file",
-          quick=(1, 60), thorough=(2, 600)),
+          quick=(1, 150), thorough=(4, 1000)),
     Facet("oem", lambda s, t: case_of(G.oem_spec(), "oem"), check, setup=_setup,
           rule="every case (1-2 ephemerides, 1-12 points, 0..N covariances)",
-          quick=(4, 80), thorough=(16, 600)),
+          quick=(6, 120), thorough=(16, 1000)),
     Facet("omm", lambda s, t: case_of(G.omm_spec(), "omm"), check, setup=_setup,
           rule="every case (orbit from a generated TLE or built like the reader builds it)",
-          quick=(3, 120), thorough=(8, 1200)),
+          quick=(4, 200), thorough=(8, 2000)),
     Facet("tdm", lambda s, t: case_of(G.tdm_spec(), "tdm"), check, setup=_setup,
           rule="every case (1-3 paths, Range/Azimut/Elevation/Doppler)",
-          quick=(2, 150), thorough=(8, 1200)),
+          quick=(3, 200), thorough=(8, 2000)),
+    Facet("foreign", lambda s, t: foreign_case(sample_names()), check_foreign, setup=_setup_jpl,
+          rule="the (possibly digit-edited) sample message was accepted by the reader",
+          quick=(1, 250), thorough=(4, 2500)),
 ]
